@@ -312,3 +312,31 @@ func isRangeVar(info *types.Info, rs *ast.RangeStmt, o types.Object) bool {
 	}
 	return false
 }
+
+// implicitAddr: x.M() with a pointer-receiver method on an addressable
+// non-struct variable takes &x; the variable may then change behind our back.
+func (e *Eng) implicitAddr(x ast.Expr, fn *types.Func) {
+	sig, _ := fn.Type().(*types.Signature)
+	if sig == nil || sig.Recv() == nil {
+		return
+	}
+	if _, ptr := sig.Recv().Type().(*types.Pointer); !ptr {
+		return
+	}
+	id, ok := ast.Unparen(x).(*ast.Ident)
+	if !ok {
+		return
+	}
+	o, ok := e.info.ObjectOf(id).(*types.Var)
+	if !ok || isPkgLevel(o) {
+		return
+	}
+	switch o.Type().Underlying().(type) {
+	case *types.Struct, *types.Array, *types.Pointer:
+		return
+	}
+	if e.escaped == nil {
+		e.escaped = map[types.Object]bool{}
+	}
+	e.escaped[o] = true
+}
